@@ -1950,6 +1950,8 @@ pub fn monitor() -> super::Monitor {
             ("closes", 2_000),
             ("polls_device_blocked", 20_000),
             ("polls_token_cap_hit", 5_000),
+            ("errors_delivered_and_compared", 10_000),
+            ("errors_not_for_the_socket", 10_000),
             ("distinct", 150),
         ],
         parts: vec![
@@ -1957,6 +1959,7 @@ pub fn monitor() -> super::Monitor {
             super::Part { name: "icmp", cases: |c| c.n(25_000, 800_000), f: case_icmp },
             super::Part { name: "raw", cases: |c| c.n(25_000, 800_000), f: case_raw },
             super::Part { name: "mixed", cases: |c| c.n(40_000, 1_200_000), f: case_mixed },
+            super::Part { name: "icmp-errors", cases: |c| c.n(20_000, 400_000), f: super::c09e::case },
         ],
         post: None,
     }
